@@ -393,10 +393,15 @@ func (w *World) Explore(name string, opts ExploreOpts) *HarnessReport {
 					continue
 				}
 				key := ev.Kind + "|" + ev.Msg + "|" + ev.Where
-				if findingKeys[key] && ev.Kind != "violation" {
+				for _, n := range res.Notes {
+					if strings.HasPrefix(n, "template:") || strings.HasPrefix(n, "known:") {
+						key += "|" + n
+					}
+				}
+				if findingKeys[key] {
 					continue
 				}
-				if len(rep.Findings) >= opts.MaxFindings*4 {
+				if len(rep.Findings) >= opts.MaxFindings*16 {
 					continue
 				}
 				findingKeys[key] = true
